@@ -300,6 +300,24 @@ def linearizable(model0, history, final_raw):
     return rec(0, model0.copy(), [])
 
 
+import contextlib
+
+
+@contextlib.contextmanager
+def dict_git_cache():
+    """While active, every BazaarObjectStore gets a fresh in-memory SHA-map cache instead of
+    one in the user's cache directory (in-process checks: one run at a time)."""
+    from breezy.git import cache as gcache
+    from breezy.git import object_store
+
+    orig = object_store.cache_from_repository
+    object_store.cache_from_repository = lambda repo: gcache.DictBzrGitCache()
+    try:
+        yield
+    finally:
+        object_store.cache_from_repository = orig
+
+
 # =============================================================================================
 # Part 2 (C38): native histories, recorded cache-update sequences, backend drivers
 # =============================================================================================
